@@ -412,10 +412,16 @@ impl ScionUdpPacketView {
     /// the UDP datagram.
     #[inline]
     pub fn udp(&self) -> &UdpDatagramView {
-        // The buffer size was already checked when creating the ScionUdpPacketView.
-        let (view, _) = UdpDatagramView::try_from_slice(self.payload())
-            .expect("udp payload is not large enough for a UDP header");
-        view
+        // The buffer size was already checked when creating the ScionUdpPacketView. The length
+        // field may have been overwritten since (e.g. via `as_raw_mut`), so it is only used to
+        // shorten the datagram, never below the UDP header.
+        let payload = self.payload();
+        let len = (UdpDatagramView::has_required_size(payload))
+            .unwrap_or(payload.len())
+            .min(payload.len());
+        // SAFETY: the payload holds at least a UDP header (checked on construction) and len does
+        // not exceed the payload.
+        unsafe { UdpDatagramView::from_slice_unchecked(payload.get_unchecked(..len)) }
     }
 
     /// Returns the source SCION socket address of the packet.
